@@ -281,8 +281,11 @@ extern MPT_INTERFACE(metatype) *_mpt_iterator_range(MPT_STRUCT(value) *val)
 			return 0;
 		}
 		
-		if (step > (r.max - r.min)
-		  || step < (r.max - r.min) * 1e-6) {
+		/* need finite, non-empty range and step size inside */
+		if (!((r.max - r.min) > 0 && (r.max - r.min) <= DBL_MAX)
+		  || !(step > 0)
+		  || !(step <= (r.max - r.min))
+		  || !(step >= (r.max - r.min) * 1e-6)) {
 			errno = ERANGE;
 			return 0;
 		}
